@@ -56,10 +56,21 @@ EDITS = [
 ]
 
 
+# a template file: one item refers to a variable that the file does not define; the options complete or remove it
+DANGLING = "B-B : as.constant ${later}"
+EDITS_TEMPLATE = [
+  (["--override-item", "Pair:B-B=as.constant 0.5"], lambda t: t.replace(DANGLING, "B-B : as.constant 0.5")),
+  (["--remove-item", "Pair:B-B"], lambda t: t.replace(DANGLING + "\n", "")),
+  (["--add-item", "Variables:later=0.75"], lambda t: "[Variables]\nlater : 0.75\n\n" + t),
+  (["--override-item", "Pair:B - B=as.constant ${later}", "--add-item", "Variables:later=0.75"], lambda t: "[Variables]\nlater : 0.75\n\n" + t),
+]
+
+
 def differential_case(target):
   res = new_result("potable overrides vs hand-edited file: %s" % target)
   base = (EAM_TEXT if target in ("setfl", "DL_POLY_EAM") else PAIR_TEXT) % dict(target=target, nr=8 if target == "DL_POLY" else 5)
-  for args, edit in EDITS:
+  template = base.replace("B-B : f 2.0", DANGLING)
+  for args, edit, base in [(a, e, base) for a, e in EDITS] + [(a, e, template) for a, e in EDITS_TEMPLATE]:
     got = c13.run_potable(base, args)
     res["replays"] += 1
     res["paths"] += 1
